@@ -747,6 +747,64 @@ theorem random_radius_contained (a : Axis K) (c : GridClass) (hw : a.WF c) (hnu 
   obtain ⟨h1, h2⟩ := radial_draw_in_bounds d hd _ _ r u (h0.trans hmin) hle hr hu0 hu1 e
   exact cell_coord_in_range a.lo a.hi a.n hw.2.1 hw.1 r (hmin.trans h1) (h2.trans hmax)
 
+/-- the whole point returned by the polar / spherical / cylindrical `get_random_point`
+(`coords="grid"`): radius from the `d`-th root of a uniform draw (`d = 2, 3, 2`), `z` uniform in
+`[z_min + b, z_max - b]`; it is contained in the grid -/
+theorem random_point_contained_radial (g : Grid K) (h : g.WF) (b r u uz : K) (avoid : Bool)
+    (hb : 0 ≤ b) (hr : 0 ≤ r) (hu0 : 0 ≤ u) (hu1 : u ≤ 1) (hz0 : 0 ≤ uz) (hz1 : uz ≤ 1) :
+    (∀ a, (g.cls = .polar ∨ g.cls = .spherical) → g.axes = [a] →
+      (randomRadialBounds a.lo a.hi b avoid).1 ≤ (randomRadialBounds a.lo a.hi b avoid).2 →
+      r ^ g.dim = uniformDraw ((randomRadialBounds a.lo a.hi b avoid).1 ^ g.dim)
+        ((randomRadialBounds a.lo a.hi b avoid).2 ^ g.dim) u →
+      g.containsGrid [r] = true) ∧
+    (∀ a z, g.cls = .cylindrical → g.axes = [a, z] →
+      (randomRadialBounds a.lo a.hi b avoid).1 ≤ (randomRadialBounds a.lo a.hi b avoid).2 →
+      z.lo + b ≤ z.hi - b →
+      r ^ 2 = uniformDraw ((randomRadialBounds a.lo a.hi b avoid).1 ^ 2)
+        ((randomRadialBounds a.lo a.hi b avoid).2 ^ 2) u →
+      g.containsGrid [r, uniformDraw (z.lo + b) (z.hi - b) uz] = true) := by
+  obtain ⟨hw, hc⟩ := h
+  have radial : ∀ (a : Axis K) (d : ℕ), d ≠ 0 → a.WF g.cls → 0 ≤ a.lo →
+      (randomRadialBounds a.lo a.hi b avoid).1 ≤ (randomRadialBounds a.lo a.hi b avoid).2 →
+      r ^ d = uniformDraw ((randomRadialBounds a.lo a.hi b avoid).1 ^ d)
+        ((randomRadialBounds a.lo a.hi b avoid).2 ^ d) u → a.lo ≤ r ∧ r ≤ a.hi := by
+    intro a d hd _ h0 hle e
+    have hmin : a.lo ≤ (randomRadialBounds a.lo a.hi b avoid).1 := by
+      unfold randomRadialBounds; cases avoid <;> simp [hb]
+    have hmax : (randomRadialBounds a.lo a.hi b avoid).2 ≤ a.hi := by
+      unfold randomRadialBounds; simp [hb]
+    obtain ⟨h1, h2⟩ := radial_draw_in_bounds d hd _ _ r u (h0.trans hmin) hle hr hu0 hu1 e
+    exact ⟨hmin.trans h1, h2.trans hmax⟩
+  constructor
+  · intro a hcls hax hle e
+    have ha : a ∈ g.axes := by rw [hax]; simp
+    have h0 : 0 ≤ a.lo := by
+      rcases hcls with hc' | hc' <;> rw [hc'] at hc <;> exact hc.2 a ha
+    have hd : g.dim ≠ 0 := by
+      unfold Grid.dim GridClass.dim; rcases hcls with hc' | hc' <;> rw [hc'] <;> simp
+    obtain ⟨h1, h2⟩ := radial a _ hd (hw a ha) h0 hle e
+    apply contains_of_in_bounds g hw
+    · rw [hax]; rfl
+    · intro q hq
+      rw [hax] at hq
+      simp only [List.zip_cons_cons, List.zip_nil_right, List.mem_cons, List.not_mem_nil, or_false] at hq
+      rw [hq]; exact ⟨h1, h2⟩
+  · intro a z hcls hax hle hzle e
+    have ha : a ∈ g.axes := by rw [hax]; simp
+    have hz : z ∈ g.axes := by rw [hax]; simp
+    have h0 : 0 ≤ a.lo := by
+      rw [hcls] at hc; exact hc.2 a (by rw [hax]; simp)
+    obtain ⟨h1, h2⟩ := radial a 2 (by norm_num) (hw a ha) h0 hle e
+    obtain ⟨z1, z2⟩ := uniformDraw_in_bounds (z.lo + b) (z.hi - b) uz hzle hz0 hz1
+    apply contains_of_in_bounds g hw
+    · rw [hax]; rfl
+    · intro q hq
+      rw [hax] at hq
+      simp only [List.zip_cons_cons, List.zip_nil_right, List.mem_cons, List.not_mem_nil, or_false] at hq
+      rcases hq with rfl | rfl
+      · exact ⟨h1, h2⟩
+      · exact ⟨by simp only; linarith, by simp only; linarith⟩
+
 /-! ### 4. normalize_point: periodic wrap and reflection -/
 
 /-- the model's `x % L` is Mathlib's `toIcoMod` with base point 0 -/
